@@ -263,15 +263,49 @@ func vTransOK(t pr.SDimensions) bool {
 // clipping is preceded by path construction: the viewport clip follows the rounded padding box of the page,
 // the `clip` property its rectangle (offsets from the border box; auto = the border edge), and the overflow
 // clip of the content the rounded padding box of the box
+// C16: for the box of the context itself the background precedes the border, both precede the content and
+// the outlines come last; the content is painted inside one save/restore pair, and a group opacity is applied
+// to everything painted for the box (the group is drawn once, after the outlines, on the original canvas).
 //@ func (drawContext).drawStackingContext$1
-//@   props C14
+//@   props C14 C16
+//@   call drawBackgroundDefaut#1 assert[background-first] arg1 == box_.Box().Background && calls(drawBorder) == 0 && calls(OnNewStack) == 0 && calls(drawOutlines) == 0
+//@   call drawBorder#1 assert[then-border] arg1 == box_ && calls(drawBackgroundDefaut) == 1 && calls(OnNewStack) == 0
+//@   call OnNewStack#1 assert[then-content] calls(drawOutlines) == 0 && arg0 == ctx.dst
+//@   call drawOutlines#1 assert[outlines-last] arg1 == box_ && calls(OnNewStack) == 1
+//@   call OnNewStack#2 assert[group-after-outlines] calls(drawOutlines) == 1 && opacity < 1 && arg0 == originalDst
 //@   modifies anything
 //@   unclaimed call-*-pre* "box accessors on laid-out boxes"
 //@   call Clip#1 assert[viewport-path] calls(roundedBoxPath) == 1 && calls(Rectangle) == 0
 //@   call Clip#2 assert[clip-rectangle] calls(Rectangle) == 1
 //@   call Rectangle#1 assert[clip-property] arg3 == fl(left.Value - right.Value) && arg4 == fl(bottom.Value - top.Value) && (clips[2].S == "auto" ==> bottom.Value == box.BorderHeight()) && (clips[0].S == "auto" ==> top.Value == 0) && (clips[1].S == "auto" ==> right.Value == 0) && (clips[3].S == "auto" ==> left.Value == box.BorderWidth())
 //@ func (drawContext).drawStackingContext$1$1
-//@   props C14
+//@   props C14 C16
 //@   modifies anything
 //@   unclaimed call-*-pre* "box accessors on laid-out boxes"
 //@   call Clip#1 assert[overflow-path] calls(roundedBoxPath) == 1
+// C16, CSS 2.1 Appendix E, the content of one stacking context is painted in this order: (3) the child
+// contexts with a negative z-index, in list order; (4) the backgrounds and borders of the in-flow,
+// non-positioned block-level descendants; (5) the floats; (6, 7) the inline content and the replaced
+// content of the box and of its blocks and cells; (8) the child contexts with z-index 0 / auto; (9) those
+// with a positive z-index. Each loop paints exactly the element it ranges over, from its own list, and no
+// later phase has started when an earlier one paints.
+//@   call drawStackingContext#1 assert[negative-z] arg1.box == stackingContext.negativeZContexts[rangeindex1].box && arg1.zIndex == stackingContext.negativeZContexts[rangeindex1].zIndex && calls(drawBorder) == 0 && calls(drawTable) == 0 && calls(drawInlineLevel) == 0 && calls(drawReplacedbox) == 0
+//@   loop 1 step[one-context-each] calls(drawStackingContext) == old(calls(drawStackingContext)) + 1
+//@   call drawTable#1 assert[blocks] calls(drawInlineLevel) == 0 && calls(drawReplacedbox) == 0
+//@   call drawBackgroundDefaut#1 assert[blocks] arg1 == block.Box().Background && block == stackingContext.blockLevelBoxes[rangeindex2] && calls(drawInlineLevel) == 0 && calls(drawReplacedbox) == 0
+//@   call drawBorder#1 assert[background-then-border] arg1 == block && calls(drawBackgroundDefaut) == calls(drawBorder)
+//@   loop 2 invariant calls(drawBackgroundDefaut) == calls(drawBorder)
+//@   loop 2 step[one-block-each] calls(drawTable) + calls(drawBorder) == old(calls(drawTable) + calls(drawBorder)) + 1 && calls(drawStackingContext) == old(calls(drawStackingContext))
+//@   call drawStackingContext#2 assert[floats] arg1.box == stackingContext.floatContexts[rangeindex3].box && arg1.zIndex == stackingContext.floatContexts[rangeindex3].zIndex && calls(drawInlineLevel) == 0 && calls(drawReplacedbox) == 0
+//@   loop 3 step[one-context-each] calls(drawStackingContext) == old(calls(drawStackingContext)) + 1 && calls(drawBorder) == old(calls(drawBorder)) && calls(drawTable) == old(calls(drawTable))
+//@   call drawInlineLevel#1 assert[inline-content-a] arg2 == box_
+//@   call drawInlineLevel#1 assert[inline-content-b] arg1 == stackingContext.page
+//@   call drawStackingContext#3 assert[zero-z] arg1.box == stackingContext.zeroZContexts[rangeindex6].box && arg1.zIndex == stackingContext.zeroZContexts[rangeindex6].zIndex
+//@   loop 6 step[one-context-each] calls(drawStackingContext) == old(calls(drawStackingContext)) + 1 && calls(drawInlineLevel) == old(calls(drawInlineLevel)) && calls(drawReplacedbox) == old(calls(drawReplacedbox)) && calls(drawBorder) == old(calls(drawBorder))
+//@   call drawStackingContext#4 assert[positive-z] arg1.box == stackingContext.positiveZContexts[rangeindex7].box && arg1.zIndex == stackingContext.positiveZContexts[rangeindex7].zIndex
+//@   loop 7 step[one-context-each] calls(drawStackingContext) == old(calls(drawStackingContext)) + 1 && calls(drawInlineLevel) == old(calls(drawInlineLevel)) && calls(drawReplacedbox) == old(calls(drawReplacedbox)) && calls(drawBorder) == old(calls(drawBorder))
+
+//@ func (drawContext).drawStackingContext$1$2
+//@   props C16
+//@   modifies anything
+//@   call DrawWithOpacity#1 assert[group-opacity] arg1 == opacity && arg2 == group && arg0 == ctx.dst
